@@ -20,13 +20,20 @@ type HelperContext struct {
 	compiler *compiler
 	block    *ast.BlockStatement
 	signal   *blockSignal
+	depth    int // of the evaluator that made the call, see maxCallDepth
 }
 
 const helperContextKind = "HelperContext"
 
 // Render a string with the current context
 func (h HelperContext) Render(s string) (string, error) {
-	return Render(s, h.Context)
+	t, err := Parse(s)
+	if err != nil {
+		return "", err
+	}
+	// the rendering is part of the call it is made for: a template that
+	// renders itself this way (a partial that includes itself) is nested
+	return t.exec(h.Context, h.depth+1)
 }
 
 // HasBlock returns true if a block is associated with the helper function
@@ -53,10 +60,8 @@ func (h HelperContext) BlockWith(hc hctx.Context) (string, error) {
 	}
 	// a block that replays itself (contentOf of its own name) would go on
 	// until the stack is used up, which no caller can recover from
-	if leave, err := h.compiler.exec.enter(); err != nil {
-		return "", err
-	} else {
-		defer leave()
+	if h.depth >= maxCallDepth {
+		return "", tooDeep()
 	}
 
 	// The block is evaluated by an evaluator of its own: a stored block
@@ -67,6 +72,7 @@ func (h HelperContext) BlockWith(hc hctx.Context) (string, error) {
 		ctx:     hc,
 		program: h.compiler.program,
 		exec:    h.compiler.exec,
+		depth:   h.depth + 1,
 	}
 
 	i, err := cc.evalBlockStatement(h.block)
@@ -103,12 +109,12 @@ func (h HelperContext) BlockWith(hc hctx.Context) (string, error) {
 func (h HelperContext) BlockOf(owner hctx.HelperContext, hc hctx.Context) (string, error) {
 	switch o := owner.(type) {
 	case HelperContext:
-		o.signal = h.signal
+		o.signal, o.depth = h.signal, h.depth
 		return o.BlockWith(hc)
 	case *HelperContext:
 		if o != nil {
 			oo := *o
-			oo.signal = h.signal
+			oo.signal, oo.depth = h.signal, h.depth
 			return oo.BlockWith(hc)
 		}
 	}
